@@ -209,8 +209,9 @@ impl Ctx {
     self.n_violations += 1;
     *self.hist.entry(format!("VIOLATION:{}", sig)).or_insert(0) += 1;
     // keep the first few of each signature
-    let same = self.violations.iter().filter(|v| v.sig == sig).count();
-    if same < 5 && self.violations.len() < 60 { self.violations.push(Violation { sig: sig.to_string(), case, detail }); }
+    let cls = case.get("cls").unwrap_or("").to_string();
+    let same = self.violations.iter().filter(|v| v.sig == sig && v.case.get("cls").unwrap_or("") == cls).count();
+    if same < 3 && self.violations.len() < 120 { self.violations.push(Violation { sig: sig.to_string(), case, detail }); }
   }
   /// a violation of *another* property observed on the way (not counted for this run's verdict)
   pub fn info(&mut self, sig: &str) { *self.hist.entry(format!("info:{}", sig)).or_insert(0) += 1; }
@@ -221,7 +222,7 @@ impl Ctx {
     for (k, v) in o.hist { *self.hist.entry(k).or_insert(0) += v; }
     for (k, v) in o.worst { self.worst_max(&k, v); }
     for s in o.samples { if self.samples.len() < 12 { self.samples.push(s); } }
-    for v in o.violations { let same = self.violations.iter().filter(|x| x.sig == v.sig).count(); if same < 5 && self.violations.len() < 60 { self.violations.push(v); } }
+    for v in o.violations { let same = self.violations.iter().filter(|x| x.sig == v.sig && x.case.get("cls") == v.case.get("cls")).count(); if same < 3 && self.violations.len() < 120 { self.violations.push(v); } }
     self.n_violations += o.n_violations;
     for (k, v) in o.known_hits { let e = self.known_hits.entry(k).or_insert((0, v.1.clone())); e.0 += v.0; }
     for s in o.inconclusive { self.inconclusive(&s); }
